@@ -591,6 +591,9 @@ func (g *gctx) makeInner(kind string, witness bool) inner {
 	case "hashlock":
 		k := g.key()
 		pre := r.Bytes(r.Intn(40))
+		if g.m("hashlock-preimage-size") {
+			pre = r.Bytes([]int{519, 520, 521, 522}[g.arg%4])
+		}
 		ops := []byte{refscript.OP_SHA256, refscript.OP_HASH160, refscript.OP_RIPEMD160, refscript.OP_SHA1, refscript.OP_HASH256}
 		op := ops[r.Intn(len(ops))]
 		var h []byte
